@@ -21,7 +21,7 @@ def _weighted(pairs):
 def charts(draw, max_states=12, max_depth=4, p_hist=0.4, allow_final=True, root_final=0.3,
            n_events=3, min_tr=3, max_tr=14, p_orth_root=0.3, mix=DEFAULT_MIX, p_eventless=0.2,
            p_sends=0.0, p_notify=0.0, send_delays=False, force_history=False,
-           priorities=PRIORITIES, dup_tr=0.0, name_fmt='s%02d', allow_orthogonal=True):
+           priorities=PRIORITIES, dup_tr=0.0, name_fmt='s%02d', allow_orthogonal=True, orth_weight=None):
     """A well-formed chart spec (DESIGN.md section 2), built by construction."""
     nodes = []
     budget = [max_states - 1]
@@ -39,13 +39,13 @@ def charts(draw, max_states=12, max_depth=4, p_hist=0.4, allow_final=True, root_
         if parent_kind == 'compound':
             opts = ['basic'] * 5
             if can_nest:
-                opts += ['compound'] * 2 + (['orthogonal'] * 2 if allow_orthogonal else [])
+                opts += ['compound'] * 2 + (['orthogonal'] * (orth_weight or 2) if allow_orthogonal else [])
             if allow_final:
                 opts += ['final']
         else:
             opts = ['basic'] * 3
             if can_nest:
-                opts += ['compound'] * 4 + (['orthogonal'] if allow_orthogonal else [])
+                opts += ['compound'] * 4 + (['orthogonal'] * (orth_weight or 1) if allow_orthogonal else [])
         return draw(st.sampled_from(opts))
 
     def grow(idx):
